@@ -171,7 +171,7 @@ def install_parse(reg):
     pp = reg.add(FuncContract(PH + ".parse_proxy_headers",
         params={"environ": ENV, "trusted_proxy_count": Int, "trusted_proxy_headers": Opaque("kinds"), "logger": Opaque("logger")},
         requires=[("count-positive", "trusted_proxy_count >= 1"), ("environ-has-peer-and-scheme", "'REMOTE_ADDR' in environ and 'wsgi.url_scheme' in environ")],
-        raises=[PH + ".MalformedProxyHeader"], ensures=ens, setup=setup_parse, returns=None,
+        raises=[PH + ".MalformedProxyHeader"], ensures=ens, setup=setup_parse, returns=("strset", ["X_FORWARDED_FOR", "X_FORWARDED_HOST", "X_FORWARDED_PROTO", "X_FORWARDED_PORT", "X_FORWARDED_BY", "FORWARDED"]),
         loops={0: LoopSpec(invariants=[("true", "True")], types={"forwarded_for": ListOf(S)}),
                1: LoopSpec(invariants=[("true", "True")], types={"forwarded_host_multiple": ListOf(S)}),
                2: LoopSpec(invariants=[("true", "True")], types={"proxies": ListOf(Obj(NT, lazy=True)), "forwarded_for": S, "forwarded_host": S, "forwarded_proto": S,
